@@ -118,3 +118,77 @@ def catchErr {α : Type} [Inhabited α] (r : Res α) : Res (α × Bool) :=
 @[inline] def outOfFuel {α : Type} : Res α := .fault
 
 end Ike.Go
+
+namespace Ike.Go
+open Ike
+
+/-! ### error values that the code compares with (`err == io.EOF`) -/
+
+inductive Err where
+  | none | eof | unexpectedEof | other
+deriving DecidableEq, Repr, Inhabited
+
+def Err.ofBool (b : Bool) : Err := if b then .other else .none
+
+/-! ### `bytes.Reader` / `bufio.Reader` over a byte slice: the octets not yet read -/
+
+abbrev Reader := Bytes
+
+/-- `r.ReadByte()` : the reader afterwards, the octet, `io.EOF` at the end -/
+def readByte (r : Reader) : Reader × UInt8 × Err :=
+  match r with
+  | [] => ([], 0, .eof)
+  | x :: rest => (rest, x, .none)
+
+/-- `io.ReadFull(r, buf)` : the reader and the buffer afterwards, the count, and `nil` / `io.EOF`
+(nothing read) / `io.ErrUnexpectedEOF` (fewer than `len(buf)` octets read) -/
+def readFull (r : Reader) (buf : Bytes) : Reader × Bytes × Nat × Err :=
+  let n := min buf.length r.length
+  (r.drop n, r.take n ++ buf.drop n, n,
+    if n = buf.length then .none else if n = 0 then .eof else .unexpectedEof)
+
+/-! ### maps: `nil` or an association list in insertion order with unique keys -/
+
+abbrev Map (κ ν : Type) := Option (List (κ × ν))
+
+def mapSetList {κ ν : Type} [DecidableEq κ] : List (κ × ν) → κ → ν → List (κ × ν)
+  | [], k, v => [(k, v)]
+  | (k', v') :: rest, k, v => if k' = k then (k, v) :: rest else (k', v') :: mapSetList rest k v
+
+/-- `m[k] = v` (a write to a nil map panics) -/
+def mapSet {κ ν : Type} [DecidableEq κ] (m : Map κ ν) (k : κ) (v : ν) : Res (Map κ ν) :=
+  match m with
+  | none => .fault
+  | some l => .ok (some (mapSetList l k v))
+
+def mapGetList {κ ν : Type} [DecidableEq κ] : List (κ × ν) → κ → Option ν
+  | [], _ => none
+  | (k', v') :: rest, k => if k' = k then some v' else mapGetList rest k
+
+/-- `v, ok := m[k]` -/
+def mapGet {κ ν : Type} [DecidableEq κ] [Inhabited ν] (m : Map κ ν) (k : κ) : ν × Bool :=
+  match m with
+  | none => (default, false)
+  | some l => match mapGetList l k with
+    | some v => (v, true)
+    | none => (default, false)
+
+/-- the entries in the order `range` visits them in the model (Go's order is unspecified) -/
+def mapEntries {κ ν : Type} (m : Map κ ν) : List (κ × ν) :=
+  match m with
+  | none => []
+  | some l => l
+
+def mapLen {κ ν : Type} (m : Map κ ν) : Nat := (mapEntries m).length
+
+/-- `sort.Slice(x, func(i, j) bool { return x[i] < x[j] })` on octets: insertion sort (any
+correct sort gives the same list when the keys are distinct) -/
+def insertU8 (x : UInt8) : List UInt8 → List UInt8
+  | [] => [x]
+  | y :: rest => if x ≤ y then x :: y :: rest else y :: insertU8 x rest
+
+def sortU8 : List UInt8 → List UInt8
+  | [] => []
+  | x :: rest => insertU8 x (sortU8 rest)
+
+end Ike.Go
